@@ -147,3 +147,635 @@ def pro_type_of(ctx, mod, fn, name, before):
     if not isinstance(v, T):
         raise Unsupported("%s is not a diagram value" % name)
     return (v.dom, v.cod)
+
+
+# ---------------------------------------------------------------------------------------------------------------------
+# C19 proper
+# ---------------------------------------------------------------------------------------------------------------------
+from ..words import Seq, Seg, Atom, Unlocatable
+from ..core import AnalysisError
+from ..cfg import CFG
+from .. import shape
+from .c01 import neq_guard, own_nodes
+
+EXPLANATION = (
+    "cartesian.py is analysed from source. Decided: (R19.1) a typestate / partition analysis of the closures built by Function.then, "
+    "Function.tensor and Function.id: values are either argument tuples or raw results in the tuple-or-single-value convention; raw results "
+    "must pass through tuplify before they are concatenated or splatted, every closure returns a raw result, `self` and `other` are applied "
+    "to exactly their own wires (the slices of the argument tuple partition it at len(self.dom), decided on symbolic widths including 0 and 1), "
+    "outputs are concatenated in order, the arity guards raise; tuplify / untuplify have their defining shape; (R19.2) Diagram.__call__ "
+    "applies the functor whose ar_factory is Function to the box's own function, Box.__call__ is Diagram.__call__; (R19.3) the generating "
+    "boxes SWAP, COPY, DISCARD and the constructors Swap(l, r), Copy(n), Discard(n) are evaluated on wire labels by a reference interpreter "
+    "for all widths up to a bound (boxes / offsets lists and the loops of Copy are folded from the source) and compared with the permutation, "
+    "duplication and deletion they must realise; (R19.4) the functor wiring that applies each box at its offset is the one decided by C04. "
+    "Not decided: behaviour of user functions that return a tuple as a single value (the convention cannot distinguish them); widths above the bound.")
+
+
+class Problem(Exception):
+    pass
+
+
+class Tup:
+    def __init__(self, seq):
+        self.seq = seq
+
+    def __repr__(self):
+        return "tuple(%r)" % (self.seq,)
+
+
+class Raw:
+    def __init__(self, seq):
+        self.seq = seq
+
+    def __repr__(self):
+        return "result(%r)" % (self.seq,)
+
+
+class Callee:
+    def __init__(self, name, dom, cod):
+        self.name, self.dom, self.cod = name, dom, cod
+
+
+class ClosureEval:
+    """abstract evaluation of the closures of Function.then / tensor / id on symbolic wire rows"""
+    def __init__(self, env, facts, helpers):
+        self.env, self.facts, self.helpers = dict(env), facts, helpers
+
+    def call_callable(self, f, args):
+        """f: ast.Lambda / ast.FunctionDef / 'untuplify' / 'tuplify' applied to python-level args (list of (starred, value))"""
+        if isinstance(f, str):
+            return self.builtin(f, args)
+        a = f.args
+        env = dict(self.env)
+        if a.vararg and not a.args:
+            env[a.vararg.arg] = self.pack(args)
+        elif not a.vararg and len(args) == 1 and args[0][0]:
+            raise Unsupported("positional parameters bound from a splat")
+        else:
+            raise Unsupported("parameter list of %s" % ast.unparse(f)[:40])
+        sub = ClosureEval(env, self.facts, self.helpers)
+        if isinstance(f, ast.Lambda):
+            return sub.ev(f.body)
+        for st in f.body:
+            if isinstance(st, ast.Assign) and len(st.targets) == 1 and isinstance(st.targets[0], ast.Name):
+                sub.env[st.targets[0].id] = sub.ev(st.value)
+            elif isinstance(st, ast.Return):
+                return sub.ev(st.value)
+            elif isinstance(st, ast.Expr) and isinstance(st.value, ast.Constant):
+                continue
+            else:
+                raise Unsupported("statement %s" % ast.unparse(st)[:50])
+        raise Problem("the closure returns nothing")
+
+    def pack(self, args):
+        seq = Seq()
+        for starred, v in args:
+            if starred:
+                if isinstance(v, Raw):
+                    raise Problem("a raw result %r is splatted (`*`) without tuplify: a single value is not iterable as wires" % (v,))
+                seq = seq + v.seq
+            else:
+                if isinstance(v, Tup):
+                    raise Problem("a tuple %r is passed as ONE argument" % (v,))
+                raise Unsupported("a raw result passed as one positional argument")
+        return Tup(seq)
+
+    def builtin(self, name, args):
+        if name == "tuplify":
+            if len(args) != 1 or args[0][0]:
+                raise Problem("tuplify takes ONE value; it is called with a splat / several arguments (fails unless there is exactly one wire)")
+            return Tup(args[0][1].seq)
+        if name == "untuplify":
+            if len(args) == 1 and not args[0][0] and isinstance(args[0][1], Raw):
+                return args[0][1]
+            return Raw(self.pack(args).seq)
+        raise Unsupported(name)
+
+    def ev(self, n):
+        if isinstance(n, ast.Name):
+            if n.id in self.env:
+                return self.env[n.id]
+            if n.id in self.env.get("__outer__", {}):
+                return self.ev(self.env["__outer__"][n.id])
+            raise Unsupported("name %s" % n.id)
+        if isinstance(n, ast.Constant) and isinstance(n.value, int):
+            return Lin.of(n.value)
+        if isinstance(n, ast.Tuple):
+            return self.pack([(isinstance(e, ast.Starred), self.ev(e.value if isinstance(e, ast.Starred) else e)) for e in n.elts])
+        if isinstance(n, ast.Call):
+            f = ast.unparse(n.func)
+            if f == "len" and len(n.args) == 1:
+                v = ast.unparse(n.args[0])
+                if v in self.env and isinstance(self.env[v], Seq):
+                    return self.env[v].length
+                x = self.ev(n.args[0])
+                if isinstance(x, Tup):
+                    return x.seq.length
+                raise Unsupported("len(%s)" % v)
+            args = [(isinstance(a, ast.Starred), self.ev(a.value if isinstance(a, ast.Starred) else a)) for a in n.args]
+            if f in ("tuplify", "untuplify"):
+                return self.builtin(f, args)
+            c = self.env.get(f)
+            if isinstance(c, Callee):
+                got = self.pack(args)
+                if not got.seq.same(c.dom, self.facts):
+                    raise Problem("`%s` is applied to %r, its inputs are %r" % (c.name, got.seq, c.dom))
+                return Raw(c.cod)
+            if f in self.helpers:
+                return self.call_callable(self.helpers[f], args)
+            raise Unsupported("call %s" % f)
+        if isinstance(n, ast.Subscript) and isinstance(n.slice, ast.Slice) and n.slice.step is None:
+            v = self.ev(n.value)
+            if isinstance(v, Raw):
+                raise Problem("a raw result %r is sliced without tuplify" % (v,))
+            lo = self.ev(n.slice.lower) if n.slice.lower is not None else None
+            hi = self.ev(n.slice.upper) if n.slice.upper is not None else None
+            try:
+                return Tup(v.seq.slice(lo, hi, self.facts))
+            except Unlocatable as e:
+                raise Problem("%s: %s" % (ast.unparse(n), e))
+        if isinstance(n, ast.BinOp) and isinstance(n.op, ast.Add):
+            l, r = self.ev(n.left), self.ev(n.right)
+            if isinstance(l, Lin) and isinstance(r, Lin):
+                return l + r
+            if isinstance(l, Raw) or isinstance(r, Raw):
+                raise Problem("a raw result is concatenated (`+`) without tuplify: %s" % ast.unparse(n))
+            return Tup(l.seq + r.seq)
+        if isinstance(n, ast.BinOp) and isinstance(n.op, ast.Sub):
+            return self.ev(n.left) - self.ev(n.right)
+        raise Unsupported("expression %s" % ast.unparse(n)[:60])
+
+
+def function_ctor(ctx, fn):
+    """the `Function(dom, cod, callable)` returned at the end of a method"""
+    F = ctx.model.cls(CART + ".Function")
+    ret = [s for s in fn.body if isinstance(s, ast.Return)]
+    ctx.need(bool(ret) and isinstance(ret[-1].value, ast.Call) and ctx.model.resolve_class(CART, ast.unparse(ret[-1].value.func)) is F and len(ret[-1].value.args) == 3,
+             "%s does not end with `return Function(dom, cod, callable)`" % fn.name)
+    return ret[-1].value
+
+
+def callable_of(fn, expr):
+    if isinstance(expr, ast.Lambda):
+        return expr
+    if isinstance(expr, ast.Name):
+        d = next((s for s in fn.body if isinstance(s, ast.FunctionDef) and s.name == expr.id), None)
+        if d is not None:
+            return d
+        if expr.id in ("untuplify", "tuplify"):
+            return expr.id
+    raise Unsupported("callable %s" % ast.unparse(expr)[:40])
+
+
+def type_word(expr, env, local):
+    """the wire row denoted by a dom / cod expression (self.dom, self.dom @ other.dom, a local assigned from those)"""
+    if isinstance(expr, ast.Name) and expr.id in local:
+        return type_word(local[expr.id], env, local)
+    s = ast.unparse(expr)
+    if s in env and isinstance(env[s], Seq):
+        return env[s]
+    if isinstance(expr, ast.BinOp) and isinstance(expr.op, ast.MatMult):
+        return type_word(expr.left, env, local) + type_word(expr.right, env, local)
+    raise Unsupported("type expression %s" % s)
+
+
+def check_function_algebra(ctx):
+    m = ctx.model
+    from ..fold import fold, CannotFold
+    DOMAIN = {"tuplify": [5, "s", None, (), (1,), (1, 2), ((1, 2),)], "untuplify": [(), (1,), (1, 2), ((1, 2),), ((),), (None,), (1, 2, 3)]}
+    REF = {"tuplify": lambda x: x if isinstance(x, tuple) else (x,), "untuplify": lambda x: x[0] if len(x) == 1 else x}
+    for name in ("tuplify", "untuplify"):
+        fn = m.func(CART + "." + name)
+        ctx.analysed(CART + "." + name)
+        ret = [s for s in fn.body if isinstance(s, ast.Return)]
+        ctx.need(len(ret) == 1 and all(isinstance(s, ast.Return) or (isinstance(s, ast.Expr) and isinstance(s.value, ast.Constant)) for s in fn.body), "%s is not a single return expression" % name)
+        p = fn.args.vararg.arg if fn.args.vararg else fn.args.args[0].arg
+        ok_sig = (name == "untuplify") == bool(fn.args.vararg) and len(fn.args.args) == (0 if name == "untuplify" else 1)
+        ctx.ob("R19.1", "%s.%s:signature" % (CART, name), ok_sig, found=ast.unparse(fn.args), required="tuplify(stuff) / untuplify(*stuff)", mod=CART, node=fn, sig=name + "-sig")
+        bad = []
+        for x in DOMAIN[name]:
+            try:
+                got = fold(ret[0].value, {p: x, "isinstance": isinstance, "tuple": tuple, "len": len, "list": list})
+            except CannotFold as e:
+                raise AnalysisError("%s.%s: `%s` cannot be folded (%s)" % (CART, name, ast.unparse(ret[0].value), e))
+            except Exception as e:           # the folded expression itself fails on this input (e.g. IndexError)
+                got = "raises %s" % type(e).__name__
+            if got != REF[name](x) or type(got) is not type(REF[name](x)):
+                bad.append("%s(%s%r) = %r, expected %r" % (name, "*" if name == "untuplify" else "", x, got, REF[name](x)))
+        ctx.ob("R19.1", "%s.%s" % (CART, name), not bad, found=bad[:3] or "agrees with the convention on %d inputs" % len(DOMAIN[name]),
+               required="the tuple-or-single-value convention (folded on a finite domain of shapes: empty, single, pair, nested)", mod=CART, node=fn, sig=name)
+    for meth in ("then", "tensor", "id"):
+        q = "%s.Function.%s" % (CART, meth)
+        fn = m.func(q)
+        ctx.analysed(q)
+        ctor = function_ctor(ctx, fn)
+        local = {s.targets[0].id: s.value for s in fn.body if isinstance(s, ast.Assign) and len(s.targets) == 1 and isinstance(s.targets[0], ast.Name)}
+        for s in fn.body:
+            if isinstance(s, ast.Assign) and isinstance(s.targets[0], ast.Tuple) and isinstance(s.value, ast.Tuple):
+                local.update({t.id: v for t, v in zip(s.targets[0].elts, s.value.elts) if isinstance(t, ast.Name)})
+        if meth == "id":
+            d = fn.args.args[0].arg
+            D = Seq.atom(Atom(d))
+            env = {d: D}
+            want_dom, want_cod, inp, out = D, D, D, D
+            callees = {}
+        else:
+            self_ = fn.args.args[0].arg
+            other = next((s.targets[0].id for s in fn.body if isinstance(s, ast.Assign) and isinstance(s.targets[0], ast.Name) and isinstance(s.value, ast.Subscript)
+                          and ast.unparse(s.value) == "%s[0]" % fn.args.vararg.arg), None) if fn.args.vararg else None
+            ctx.need(other is not None, "%s does not bind `other = others[0]`" % q)
+            SD, SC, OD, OC = (Seq.atom(Atom(x)) for x in (self_ + ".dom", self_ + ".cod", other + ".dom", other + ".cod"))
+            env = {self_ + ".dom": SD, self_ + ".cod": SC, other + ".dom": OD, other + ".cod": OC}
+            if meth == "then":
+                want_dom, want_cod, inp, out = SD, OC, SD, OC
+                callees = {self_: Callee(self_, SD, SC), other: Callee(other, SC, OC)}      # len(self.cod) == len(other.dom) under the guard
+            else:
+                want_dom, want_cod, inp, out = SD + OD, SC + OC, SD + OD, SC + OC
+                callees = {self_: Callee(self_, SD, SC), other: Callee(other, OD, OC)}
+        try:
+            dom, cod = type_word(ctor.args[0], env, local), type_word(ctor.args[1], env, local)
+        except Unsupported as e:
+            raise AnalysisError("%s: %s" % (q, e))
+        ctx.ob("R19.1", q + ":type", dom == want_dom and cod == want_cod, found="%r -> %r" % (dom, cod), required="%r -> %r" % (want_dom, want_cod), mod=CART, node=ctor, sig=meth + "-type")
+        try:
+            f = callable_of(fn, ctor.args[2])
+            ev = ClosureEval(dict(env, __outer__=local, **callees), Facts(), {k: callable_of(fn, ast.Name(id=k)) for k in [s.name for s in fn.body if isinstance(s, ast.FunctionDef)]})
+            try:
+                res = ev.call_callable(f, [(True, Tup(inp))])
+                bad = None
+                if not isinstance(res, Raw):
+                    bad = "the closure returns %r, a tuple even when there is a single output (callers expect the single value)" % (res,)
+                elif not res.seq.same(out, Facts()):
+                    bad = "the closure returns %r" % (res,)
+            except Problem as e:
+                bad = str(e)
+            ctx.ob("R19.1", q + ":closure", bad is None, found=bad or "returns result(%r) for inputs %r" % (out, inp), required="inputs %r are fed to the callees on their own wires, outputs %r in order, in the "
+                   "tuple-or-single-value convention" % (inp, out), mod=CART, node=ctor, sig=meth + "-closure")
+        except Unsupported as e:
+            raise AnalysisError("%s: closure outside the recognised idioms: %s" % (q, e))
+        if meth == "then":
+            g = CFG(fn)
+            guards = g.raising_guards_before(ctor)
+            ok = any(lab == "T" and "AxiomError" in how and neq_guard(st.test, "len(%s.cod)" % self_, "len(%s.dom)" % other) for st, lab, how in guards)
+            ctx.ob("R19.1", q + ":guard", ok, found=[(ast.unparse(st.test), how) for st, lab, how in guards], required="`len(self.cod) != len(other.dom)` raises AxiomError before the closure is built",
+                   mod=CART, node=ctor, sig="then-guard")
+        if meth in ("then", "tensor"):
+            g = CFG(fn)
+            guards = g.raising_guards_before(ctor)
+            ok = any(lab == "T" and "TypeError" in how and ast.unparse(st.test) == "not isinstance(%s, Function)" % other for st, lab, how in guards)
+            ctx.ob("R19.1", q + ":operand", ok, found=[(ast.unparse(st.test), how) for st, lab, how in guards], required="operands that are not Functions raise TypeError", mod=CART, node=ctor,
+                   sig=meth + "-operand")
+    # Function.__call__
+    q = CART + ".Function.__call__"
+    fn = m.func(q)
+    ctx.analysed(q)
+    self_, vals = fn.args.args[0].arg, fn.args.vararg.arg if fn.args.vararg else None
+    ctx.need(vals is not None, "Function.__call__ takes no *values")
+    ret = [s for s in fn.body if isinstance(s, ast.Return)]
+    ctx.need(len(ret) == 1, "Function.__call__ has not exactly one return")
+    shape.match(ctx, "R19.1", q + ":apply", ret[0].value, ["self.function(*values)", "self._function(*values)"], {self_: "self", vals: "values"}, body=fn.body, mod=CART, node=ret[0], sig="call-apply")
+    g = CFG(fn)
+    guards = g.raising_guards_before(ret[0])
+    ok = any(lab == "T" and "TypeError" in how and neq_guard(st.test, "len(%s)" % vals, "len(%s.dom)" % self_) for st, lab, how in guards)
+    ctx.ob("R19.1", q + ":guard", ok, found=[(ast.unparse(st.test), how) for st, lab, how in guards], required="a wrong number of inputs raises TypeError", mod=CART, node=ret[0], sig="call-guard")
+    c = m.cls(CART + ".Function")
+    prop = m.lookup(c, "function")
+    init = m.func(CART + ".Function.__init__")
+    stores = [s for s in init.body if isinstance(s, ast.Assign) and ast.unparse(s.targets[0]) == "self._function"]
+    ok = len(stores) == 1 and ast.unparse(stores[0].value) == init.args.args[3].arg and prop is not None and "return self._function" in ast.unparse(prop[1] if isinstance(prop, tuple) else prop)
+    ctx.ob("R19.1", CART + ".Function:function", ok, found=[ast.unparse(s) for s in stores], required="the callable given to the constructor is the one `function` returns", mod=CART, node=init, sig="function-store")
+
+
+def check_call(ctx):
+    m = ctx.model
+    q = CART + ".Diagram.__call__"
+    fn = m.func(q)
+    ctx.analysed(q)
+    self_, vals = fn.args.args[0].arg, fn.args.vararg.arg if fn.args.vararg else None
+    ctx.need(vals is not None, "Diagram.__call__ takes no *values")
+    ret = [s for s in fn.body if isinstance(s, ast.Return)]
+    ctx.need(len(ret) == 1, "Diagram.__call__ has not exactly one return")
+    shape.match(ctx, "R19.2", q, ret[0].value, "PythonFunctor(ob=lambda t: PRO(len(t)), ar=lambda f: Function(len(f.dom), len(f.cod), f.function))(self)(*values)", {self_: "self", vals: "values"},
+                body=fn.body, mod=CART, node=ret[0], sig="diagram-call", required="the functor into Functions that sends a box to its own function with its own arities, applied to the diagram, called on the values")
+    init = m.func(CART + ".PythonFunctor.__init__")
+    ctx.analysed(CART + ".PythonFunctor.__init__")
+    sup = next((c for c in ast.walk(init) if isinstance(c, ast.Call) and ast.unparse(c.func) == "super().__init__"), None)
+    kw = {k.arg: ast.unparse(k.value) for k in sup.keywords} if sup else {}
+    ok = sup is not None and [ast.unparse(a) for a in sup.args] == [a.arg for a in init.args.args[1:3]] and kw == {"ob_factory": "PRO", "ar_factory": "Function"}
+    ctx.ob("R19.2", CART + ".PythonFunctor.__init__", ok, found=ast.unparse(sup) if sup else None, required="super().__init__(ob, ar, ob_factory=PRO, ar_factory=Function): identities and composites are Functions", mod=CART, node=init,
+           sig="python-functor")
+    B = m.cls(CART + ".Box")
+    alias = [s for s in B.node.body if isinstance(s, ast.Assign) and ast.unparse(s.targets[0]) == "__call__"]
+    ok = len(alias) == 1 and m.resolve_class(CART, ast.unparse(alias[0].value).rsplit(".", 1)[0]) is m.cls(CART + ".Diagram") and ast.unparse(alias[0].value).endswith(".__call__")
+    ctx.ob("R19.2", CART + ".Box.__call__", ok, found=[ast.unparse(s) for s in alias] or "inherits %s" % "rigid.Box / cat.Box __call__", required="Box.__call__ = Diagram.__call__ (a box is called like the diagram it is)",
+           mod=CART, node=B.node, sig="box-call")
+    init = m.func(CART + ".Box.__init__")
+    stores = [s for s in ast.walk(init) if isinstance(s, ast.Assign) and ast.unparse(s.targets[0]) == "self._function"]
+    prop = m.func(CART + ".Box.function")
+    ok = len(stores) == 1 and ast.unparse(stores[0].value) == "function" and "return self._function" in ast.unparse(prop)
+    ctx.ob("R19.2", CART + ".Box:function", ok, found=[ast.unparse(s) for s in stores], required="the function given to the constructor is the one `function` returns", mod=CART, node=init, sig="box-function-store")
+
+
+# -- R19.3: reference evaluation of the structural diagrams on wire labels ------------------------------------------------
+class RefError(Exception):
+    pass
+
+
+class RD:
+    """a cartesian diagram in the reference algebra: number of inputs and a list of (generator, offset)"""
+    def __init__(self, dom, items, gens):
+        self.dom, self.items, self.gens = dom, list(items), gens
+
+    @property
+    def cod(self):
+        n = self.dom
+        for b, off in self.items:
+            d, c, _ = self.gens[b]
+            if off < 0 or off + d > n:
+                raise RefError("generator %s at offset %r does not fit a row of %d wires" % (b, off, n))
+            n += c - d
+        return n
+
+    def __matmul__(self, o):
+        if isinstance(o, int):
+            raise RefError("tensor of a diagram with a number")
+        return RD(self.dom + o.dom, self.items + [(b, off + self.cod) for b, off in o.items], self.gens)
+
+    def __rshift__(self, o):
+        if self.cod != o.dom:
+            raise RefError("composition of %d outputs with %d inputs" % (self.cod, o.dom))
+        return RD(self.dom, self.items + o.items, self.gens)
+
+    def tensor(self, *others):
+        r = self
+        for o in others:
+            r = r @ o
+        return r
+
+    @property
+    def boxes(self):
+        return [b for b, _ in self.items]
+
+    @property
+    def offsets(self):
+        return [off for _, off in self.items]
+
+    @property
+    def layers(self):
+        return ("layers-of", tuple(self.items), self.dom)
+
+    def run(self, labels):
+        row = tuple(labels)
+        if len(row) != self.dom:
+            raise RefError("called on %d values, %d inputs" % (len(row), self.dom))
+        for b, off in self.items:
+            d, c, f = self.gens[b]
+            if off < 0 or off + d > len(row):
+                raise RefError("generator %s at offset %r does not fit a row of %d wires" % (b, off, len(row)))
+            out = f(row[off:off + d])
+            row = row[:off] + out + row[off + d:]
+        return row
+
+
+class MiniEval:
+    """folds the integer / list / diagram expressions of the structural constructors (whitelisted node kinds; nothing from /repo runs)"""
+    def __init__(self, env):
+        self.env = env
+
+    def ev(self, n, env):
+        if isinstance(n, ast.Constant) and isinstance(n.value, (int, type(None))):
+            return n.value
+        if isinstance(n, ast.Name):
+            if n.id in env:
+                return env[n.id]
+            if n.id in self.env:
+                return self.env[n.id]
+            raise Unsupported("name %s" % n.id)
+        if isinstance(n, ast.BinOp):
+            l, r = self.ev(n.left, env), self.ev(n.right, env)
+            if isinstance(n.op, ast.MatMult):
+                return l + r if isinstance(l, int) and isinstance(r, int) else l @ r        # PRO types are their widths
+            if isinstance(n.op, ast.RShift):
+                return l >> r
+            if isinstance(n.op, ast.LShift):
+                return r >> l
+            if isinstance(n.op, ast.Add):
+                return l + r
+            if isinstance(n.op, ast.Sub):
+                return l - r
+            if isinstance(n.op, ast.Mult):
+                return l * r
+            if isinstance(n.op, ast.FloorDiv):
+                return l // r
+            raise Unsupported(ast.unparse(n))
+        if isinstance(n, ast.UnaryOp) and isinstance(n.op, ast.USub):
+            return -self.ev(n.operand, env)
+        if isinstance(n, (ast.List, ast.Tuple)):
+            out = []
+            for e in n.elts:
+                if isinstance(e, ast.Starred):
+                    out += list(self.ev(e.value, env))
+                else:
+                    out.append(self.ev(e, env))
+            return out if isinstance(n, ast.List) else tuple(out)
+        if isinstance(n, (ast.ListComp, ast.GeneratorExp)):
+            out = []
+
+            def rec(k, e2):
+                if k == len(n.generators):
+                    out.append(self.ev(n.elt, e2))
+                    return
+                g = n.generators[k]
+                if not isinstance(g.target, ast.Name):
+                    raise Unsupported("comprehension target")
+                for v in self.ev(g.iter, e2):
+                    e3 = dict(e2, **{g.target.id: v})
+                    if all(self.ev(c, e3) for c in g.ifs):
+                        rec(k + 1, e3)
+            rec(0, env)
+            return out
+        if isinstance(n, ast.Attribute):
+            v = self.ev(n.value, env)
+            if isinstance(v, RD) and n.attr in ("boxes", "offsets", "layers", "dom", "cod"):
+                return getattr(v, n.attr)
+            raise Unsupported(ast.unparse(n))
+        if isinstance(n, ast.Call):
+            f = ast.unparse(n.func)
+            args = []
+            for a in n.args:
+                if isinstance(a, ast.Starred):
+                    args += list(self.ev(a.value, env))
+                else:
+                    args.append(self.ev(a, env))
+            if f == "range":
+                return list(range(*args))
+            if f == "len":
+                return len(args[0]) if not isinstance(args[0], int) else args[0]
+            if f == "PRO":
+                return args[0] if args else 0
+            if f == "Id":
+                return RD(args[0] if args else 0, [], self.env["__gens__"])
+            if isinstance(n.func, ast.Attribute) and n.func.attr == "tensor":
+                return self.ev(n.func.value, env).tensor(*args)
+            if f in self.env.get("__ctors__", {}):
+                return self.env["__ctors__"][f](*args)
+            raise Unsupported("call %s" % f)
+        raise Unsupported("expression %s" % ast.unparse(n)[:60])
+
+    def run_init(self, init, args):
+        """fold the constructor body; returns the arguments of the final super().__init__(dom, cod, boxes, offsets[, layers=])"""
+        env = dict(zip([a.arg for a in init.args.args[1:]], args))
+
+        def block(body):
+            for st in body:
+                if isinstance(st, ast.Expr) and isinstance(st.value, ast.Constant):
+                    continue
+                if isinstance(st, ast.Assign) and len(st.targets) == 1:
+                    v = self.ev(st.value, env)
+                    t = st.targets[0]
+                    if isinstance(t, ast.Name):
+                        env[t.id] = v
+                    elif isinstance(t, ast.Tuple) and all(isinstance(e, ast.Name) for e in t.elts) and len(t.elts) == len(v):
+                        env.update({e.id: x for e, x in zip(t.elts, v)})
+                    else:
+                        raise Unsupported("assignment %s" % ast.unparse(st)[:50])
+                    continue
+                if isinstance(st, ast.For) and isinstance(st.target, ast.Name) and not st.orelse:
+                    for v in self.ev(st.iter, env):
+                        env[st.target.id] = v
+                        r = block(st.body)
+                        if r is not None:
+                            return r
+                    continue
+                if isinstance(st, ast.Expr) and isinstance(st.value, ast.Call) and ast.unparse(st.value.func) == "super().__init__":
+                    c = st.value
+                    pos = [self.ev(a, env) for a in c.args]
+                    kw = {k.arg: self.ev(k.value, env) for k in c.keywords}
+                    return pos, kw
+                raise Unsupported("statement %s" % ast.unparse(st)[:50])
+            return None
+        r = block(init.body)
+        if r is None:
+            raise Unsupported("constructor does not call super().__init__")
+        return r
+
+
+def lambda_on_labels(lam):
+    """the function of a generating box, interpreted on tuples of labels"""
+    a = lam.args
+
+    def f(xs):
+        if a.vararg and not a.args:
+            env = {a.vararg.arg: tuple(xs)}
+        elif not a.vararg:
+            if len(a.args) != len(xs):
+                raise RefError("lambda with %d parameters applied to %d wires" % (len(a.args), len(xs)))
+            env = dict(zip([p.arg for p in a.args], xs))
+        else:
+            raise Unsupported("lambda parameters")
+        v = MiniEval({}).ev(lam.body, env)
+        return v if isinstance(v, tuple) else (v,)
+    return f
+
+
+BOUND = {"quick": 3, "thorough": 5}
+
+
+def check_structural(ctx):
+    m = ctx.model
+    consts = m.module_assigns.get(CART, {})
+    gens = {}
+    for g, want, spec in (("SWAP", (2, 2), lambda x: (x[1], x[0])), ("COPY", (1, 2), lambda x: (x[0], x[0])), ("DISCARD", (1, 0), lambda x: ())):
+        v = consts.get(g)
+        ctx.need(isinstance(v, ast.Call) and m.resolve_class(CART, ast.unparse(v.func)) is m.cls(CART + ".Box") and len(v.args) >= 4 and isinstance(v.args[3], ast.Lambda),
+                 "generating box %s is not Box(name, dom, cod, lambda)" % g)
+        try:
+            d, c = MiniEval({}).ev(v.args[1], {}), MiniEval({}).ev(v.args[2], {})
+            f = lambda_on_labels(v.args[3])
+            labels = tuple("abc"[:d])
+            got = f(labels) if d == want[0] else None
+        except RefError as e:
+            got = str(e)
+        except Unsupported as e:
+            raise AnalysisError("generating box %s: %s" % (g, e))
+        ctx.ob("R19.3", "%s.%s" % (CART, g), (d, c) == want and got == spec(labels), found="%d -> %d, %s -> %s" % (d, c, labels, got), required="%d -> %d, %s -> %s" % (want + (tuple("abc"[:want[0]]), spec(tuple("abc"[:want[0]])))),
+               mod=CART, node=v, sig="gen-" + g)
+        gens[g] = (d, c, f)
+    N = BOUND.get(ctx.tier, 3)
+    base = {"__gens__": gens}
+    for g in gens:
+        base[g] = RD(gens[g][0], [(g, 0)], gens)
+    me = MiniEval(base)
+
+    def instance(cname, args, want):
+        init = m.func("%s.%s.__init__" % (CART, cname))
+        try:
+            pos, kw = me.run_init(init, args)
+            if len(pos) != 4:
+                raise Unsupported("super().__init__ with %d positional arguments" % len(pos))
+            dom, cod, boxes, offsets = pos
+            if len(boxes) != len(offsets):
+                return "boxes and offsets have different lengths (%d, %d)" % (len(boxes), len(offsets))
+            names = []
+            for b in boxes:
+                if isinstance(b, RD) and len(b.items) == 1 and b.items[0][1] == 0:
+                    names.append(b.items[0][0])
+                elif isinstance(b, str):
+                    names.append(b)
+                else:
+                    raise Unsupported("box list element %r" % (b,))
+            d = RD(dom, zip(names, offsets), gens)
+            labels = tuple(range(dom))
+            if dom != len(want[0]):
+                return "%d inputs, expected %d" % (dom, len(want[0]))
+            got = d.run(want[0])
+            if got != want[1]:
+                return "%s -> %s" % (want[0], got)
+            if cod != len(want[1]):
+                return "declared with %d outputs, expected %d" % (cod, len(want[1]))
+            if "layers" in kw and kw["layers"] is not None and kw["layers"] != ("layers-of", tuple(d.items), dom):
+                return "the layers passed on belong to another diagram"
+            return None
+        except RefError as e:
+            return str(e)
+
+    n_inst = 0
+    for cname, domain, want in (
+            ("Swap", [(l, r) for l in range(N + 1) for r in range(N + 1)], lambda l, r: (tuple(range(l + r)), tuple(range(l, l + r)) + tuple(range(l)))),
+            ("Copy", [(n,) for n in range(N + 2)], lambda n: (tuple(range(n)), tuple(range(n)) * 2)),
+            ("Discard", [(n,) for n in range(N + 2)], lambda n: (tuple(range(n)), ()))):
+        ctx.analysed("%s.%s.__init__" % (CART, cname))
+        bad = []
+        try:
+            for args in domain:
+                r = instance(cname, list(args), want(*args))
+                n_inst += 1
+                if r:
+                    bad.append("%s%r: %s" % (cname, tuple(args), r))
+        except Unsupported as e:
+            raise AnalysisError("%s.%s.__init__ outside the recognised idioms: %s" % (CART, cname, e))
+        ctx.ob("R19.3", "%s.%s" % (CART, cname), not bad, found=bad[:3] or "%d widths evaluated on labels" % len(domain),
+               required={"Swap": "(x, y) -> (y, x) as whole blocks", "Copy": "x -> (x, x) as whole blocks", "Discard": "x -> ()"}[cname] + " for all widths up to %d" % N, mod=CART,
+               node=m.func("%s.%s.__init__" % (CART, cname)), sig="struct-" + cname)
+    ctx.assumptions.append("R19.3 evaluates the structural constructors for widths up to %d (%d instances); larger widths follow the same comprehension / loop" % (N, n_inst))
+
+
+def check(ctx):
+    ctx.rule("R19.1", "Function algebra: typestate of the tuple-or-single-value convention, partition of the argument tuple, order of outputs, guards")
+    ctx.rule("R19.2", "Diagram.__call__ is the functor into Functions on the boxes' own functions; Box.__call__ is Diagram.__call__")
+    ctx.rule("R19.3", "generating boxes and Swap / Copy / Discard evaluated on wire labels by the reference interpreter")
+    ctx.rule("R19.4", "the functor wiring (each box applied at its offset between identities) is the one decided by C04")
+    check_function_algebra(ctx)
+    check_call(ctx)
+    check_structural(ctx)
+    from ..core import Ctx
+    from . import c04
+    sub = Ctx("C04", ctx.model, ctx.tier)
+    c04.check(sub)
+    bad = [o for o in sub.obs if not o.ok and o.rule in ("R04.1", "R04.2")]
+    ctx.ob("R19.4", "C04:dependency", not bad and not sub.broken, found=["%s %s" % (o.rule, o.construct) for o in bad][:4] or "R04.1 / R04.2 discharged",
+           required="monoidal.Functor.__call__ applies id(left) @ F(box) @ id(right) layer by layer (C04)", mod="discopy.monoidal", node=None, sig="dep-C04:" + ",".join(sorted({o.rule for o in bad})))
+    ctx.floor("R19.1", 14)
+    ctx.floor("R19.2", 4)
+    ctx.floor("R19.3", 6)
+    ctx.not_decided += ["user functions returning a tuple as a single value", "widths above the bound of R19.3"]
